@@ -40,5 +40,10 @@ CLAIMED = {
   note="Bounds: 0 <= local <= global (int32), k <= 3 allocation answers / 2-3 acquire replies with arbitrary int32 values, error kinds and request times; meter readings arbitrary within the enforced limit (induction hypothesis). Outside: the acquire worker goroutines/channels and the wait protocol (liveness, latency), token-bucket count wrapper and readiness hysteresis (not yet encoded).",
   technique="symbolic execution of go/ssa + SMT (QF_BV)",
   ref="9/C09"),
+ "C20": dict(
+  text="Bounded symbolic model checking of the real DefaultRESTStrategy.PrepareForCreate/PrepareForUpdate and DefaultStatusRESTStrategy.PrepareForUpdate (with meta.Accessor and the ObjectMeta accessors from source) through a narrow reflect layer over the engine's typed heap, on a kind of the UpstreamCluster shape with symbolic metadata/spec/status.",
+  note="Bounds: stored and submitted object with <= 1 server (pointer member in thorough), <= 1 condition, labels/annotations nil/empty/one entry, strings <= 1 byte, any generation. The kind is a harness-defined struct with ObjectMeta+Spec+Status (the strategies only look at field names via reflection); the staging module cannot import the real kinds. Trusted: the reflect layer (TypeOf/ValueOf/Elem/FieldByName/Set/New/Interface/DeepEqual), validated by native replay of every path witness. Outside: the generic registry around the strategies.",
+  technique="symbolic execution of go/ssa with a reflect intrinsic layer + SMT (QF_BV)",
+  ref="9/C20"),
 }
 NOT_APPLICABLE = {}
